@@ -64,7 +64,10 @@ def run(rep, tier, rng):
     cases = [("p%d" % i, "cli", [t]) for i, (_, t, _) in enumerate(progs)]
     inproc = [("p%d" % i, "progx", ["nostd", t]) for i, (_, t, _) in enumerate(progs)]
     model = C.run_driver(cases)
-    lib = C.run_hx(inproc)
+    # reference for standard output that does not go through one `eval` of the whole text: the forms one by one (what each
+    # wrote, whether it failed)
+    perform = [("f%d" % i, "session", ["nostd+perform"] + fs) for i, (fs, _, _) in enumerate(progs)]
+    lib = C.run_hx(inproc + perform)
     for i, (forms, text, fault) in enumerate(progs):
         path = os.path.join(work, "progs", "p%d.scm" % i)
         open(path, "wb").write(text.encode())
@@ -95,6 +98,15 @@ def run(rep, tier, rng):
             if err.strip(): problems.append("something on standard error although every form succeeded")
         if C.esc_out(out) != lib_out:
             problems.append("standard output differs from what the same text displays through the library interface")
+        per = lib.get("f%d" % i, [])
+        if len(per) == 3 * len(forms):
+            want = ""
+            for j in range(len(forms)):
+                want += per[3 * j][2:]
+                if per[3 * j + 2][2:]:
+                    break
+            if C.esc_out(out) != want:
+                problems.append("standard output is not what the forms up to the first failing one write, one after another: expected %r" % want)
         if fault is not None and not lib_res.startswith("E " + fault[1]):
             problems.append("the injected fault (%s) is not what stopped the program: %s" % (fault[1], lib_res))
         if problems:
